@@ -36,8 +36,8 @@ Proof.
     destruct (Z.eqb_spec t 2) as [E2|N2]; [subst; reflexivity|].
     destruct (Z.eqb_spec t 3) as [E3|N3]; [subst; discriminate|]. subst. reflexivity.
   - intros t r. destruct (toy_valid t) eqn:V; intros H; inversion H; subst. rewrite V. reflexivity.
-  - intros s _ H. destruct (toy_valid s); [reflexivity|discriminate].
-  - intros s H _. apply Z.eqb_eq in H. rewrite H. split; [reflexivity|discriminate].
+  - intros s _ _ H. destruct (toy_valid s); [reflexivity|discriminate].
+  - intros s H _ _. apply Z.eqb_eq in H. rewrite H. reflexivity.
   - intros a b n m _. destruct (toy_valid a); [|discriminate]. destruct (toy_valid b); [|discriminate].
     intros H1 H2 _ _. inversion H1; inversion H2; congruence.
 Qed.
